@@ -36,6 +36,7 @@ pub struct BackendConn {
     pub opened_seq: u64,
     pub opened_us: u64,
     pub authed_seq: Option<u64>,
+    pub authed_us: Option<u64>,
     pub closed_seq: Option<u64>,
     pub closed_us: Option<u64>,
     /// "eof" | "terminate" | "reset" | "killed" | "fatal" | "auth_failed" | "silent"
